@@ -247,7 +247,7 @@ def gen_plan(seed, tier):
             parent = d.below(n_worlds)
             nc_kind = d.weighted([('empty', 4), ('same_name', 2), ('new_name', 2), ('flag', 2), ('slices', 1), ('tides', 1),
                                   ('tides_nested', 1), ('earlier_name', 1), ('layer_geometry', 1), ('move_core', 2), ('layer_density', 2),
-                                  ('world_mass', 1)])
+                                  ('world_mass', 1), ('layer_flag', 1)])
             nn_kind = d.weighted([('none', 5), ('parent_name', 2), ('parent_config_name', 1), ('fresh', 2)])
             fresh += 1
             ops.append({'op': 'derive', 'parent': parent, 'new_config': nc_kind, 'new_name': nn_kind, 'tag': fresh,
@@ -432,7 +432,7 @@ class WorldChainEngine(EngineBase):
                 ls = list(new_world)
                 stack_info[id(new_world)] = {'core_name': ls[0].name, 'core_radius': ls[0].radius,
                                              'upper_thickness_sum': sum(L.thickness for L in ls[1:])}
-            elif op['op'] == 'derive' and op.get('new_config') in ('empty', 'same_name', 'new_name', 'flag', 'tides', 'tides_nested', 'earlier_name') \
+            elif op['op'] == 'derive' and op.get('new_config') in ('empty', 'same_name', 'new_name', 'flag', 'tides', 'tides_nested', 'earlier_name', 'layer_flag', 'layer_density', 'world_mass') \
                     and id(parent[0]) in stack_info:
                 stack_info[id(new_world)] = stack_info[id(parent[0])]      # the description is inherited unchanged
             meta = '%s#%d' % (new_world.name, len(worlds))
@@ -463,7 +463,8 @@ class WorldChainEngine(EngineBase):
                          new_name=op['new_name'], new_config=op.get('new_config', ''))
                 if op['op'] == 'scale':
                     self._scaling(pw, new_world, op['factor'], i, label, viol, bump)
-                if op['op'] == 'derive' and op['new_config'] in ('empty', 'same_name', 'new_name', 'earlier_name', 'tides_nested', 'flag', 'tides'):
+                if op['op'] == 'derive' and op['new_config'] in ('empty', 'same_name', 'new_name', 'earlier_name', 'tides_nested', 'flag', 'tides') \
+                        or (op['op'] == 'derive' and op['new_config'] == 'layer_flag' and op['tag'] % 4 in (0, 1)):
                     self._same_geometry(pw, new_world, i, label, viol)
             # ---- non-mutation of everything that existed before ----
             for (w, snap, m) in worlds:
@@ -547,6 +548,13 @@ class WorldChainEngine(EngineBase):
                 key = 'density' if lcfg.get('density') is not None else ('density_bulk' if lcfg.get('density_bulk') is not None else None)
                 if key is not None:
                     return {'layers': {lname: {key: [4500.0, 2000.0, 9000.0, 1200.0][op['tag'] % 4]}}}
+            return {}
+        if k == 'layer_flag':
+            # a non-geometric key of one layer
+            if 'layers' in pw.config and pw.config['layers'] and hasattr(pw, 'layers'):
+                names = list(pw.config['layers'].keys())
+                lname = names[op['value'] % len(names)]
+                return {'layers': {lname: [{'is_tidal': True}, {'is_tidal': False}, {'use_bulk_density': True}, {'slices': 17}][op['tag'] % 4]}}
             return {}
         if k == 'world_mass':
             # from here on the user prescribes the world's mass
